@@ -179,7 +179,7 @@ func kindOfType(t *rc.Type) string {
 
 func main() {
 	run = vlib.Start("C04")
-	run.SetRule("for every generated struct type x values: (a) every insertion point tag order allows (top level, nested structs, list elements, map values) x every kind of well-formed unknown field (" + fmt.Sprint(len(rc.ExtraKinds)) + " kinds: all scalar widths, String1/String4, maps, lists incl. mixed-width ints and nesting 6, simple lists full of head-like bytes, structs incl. extended tags) -> decode equals decode without extras; ReadBlock end position exact; (b) every subset-drop of optional members -> IDL default, fresh and reused target; (c) each required member dropped -> error; (d) EvoOld/EvoNew cross-version decoding. A case is one (type, encoding); distinct encodings are counted.")
+	run.SetRule("for every generated struct type x values: (a) every insertion point tag order allows (top level, nested structs, list elements, map values) x every kind of well-formed unknown field (" + fmt.Sprint(len(rc.ExtraKinds)) + " kinds: all scalar widths, String1/String4, maps, lists incl. mixed-width ints and nesting 6, simple lists full of head-like bytes, structs incl. extended tags) -> decode equals decode without extras; ReadBlock end position exact; (b) every subset-drop of optional members -> IDL default, fresh and reused target; (c) each required member dropped -> error; (d) EvoOld/EvoNew cross-version decoding; (e) TUP requests to the generated dispatcher with one in-parameter attribute omitted -> the implementation must not run. A case is one (type, encoding); distinct encodings are counted.")
 	run.Assume("encodings are produced by the reference encoder (harness/refcodec), not by the code under test")
 	if len(resreg.Types) == 0 {
 		fmt.Println("registry is empty")
@@ -403,6 +403,7 @@ func main() {
 	for k, n := range skipped {
 		run.Add("skipped_"+k, n)
 	}
+	tupDispatchPhase(vlib.SeedRand(run.Seed, "c04-tupdispatch"))
 	run.Finish()
 }
 
